@@ -235,6 +235,7 @@ def run_harness(h, budget_s=20.0, seed=0, native_tries=300):
         k = "ret" if res.kind == "ret" else "raise:" + type(res.value).__name__
         rec["path_kinds"][k] = rec["path_kinds"].get(k, 0) + 1
     seen = {}
+    rec["assumed"] = sorted({a for res in results for a in res.ctx.notes.get("assumed", [])})
     for pi, res in enumerate(results):
         ctx = res.ctx
         Ctx.cur = ctx
